@@ -487,9 +487,19 @@ func (e *Engine) solveSet(o *checkOpts, obls []*Obligation) {
 	wg2.Wait()
 	// phase C: whatever is still undecided (no proof, no model) is tried once more on an otherwise idle machine,
 	// one obligation at a time with a larger budget, so that a verdict never depends on the load of the host.
-	// Bounded to one minute in total; obligations not reached keep their phase B verdict.
-	deadline := time.Now().Add(60 * time.Second)
-	for _, ob := range retry {
+	// Bounded to two and a half minutes in total; obligations not reached keep their phase B verdict.
+	deadline := time.Now().Add(150 * time.Second)
+	// cheapest first, so that one expensive undecided obligation cannot starve the others of their second chance
+	spent := func(ob *Obligation) float64 {
+		t := 0.0
+		for _, r := range ob.Tried {
+			t += r.Seconds
+		}
+		return t
+	}
+	phaseC := append([]*Obligation(nil), retry...)
+	sort.SliceStable(phaseC, func(i, j int) bool { return spent(phaseC[i]) < spent(phaseC[j]) })
+	for _, ob := range phaseC {
 		if ob.Result.Status == "unsat" || ob.Result.Status == "sat" || ob.Vacuity {
 			continue
 		}
